@@ -10,7 +10,7 @@
 From Coq Require Import List NArith.
 From Coq Require Import Permutation.
 From Jamm Require Import Bytes Codec Tree Spec Cursor SearchFacts CursorFacts SeekFacts CodecFacts.
-From Jamm Require Engine EngineFacts EngineMergeFacts.
+From Jamm Require Engine EngineFacts EngineMergeFacts EngineModifyFacts.
 Import ListNotations.
 
 Theorem C01_partial_get : forall t k, wf_tree t = true ->
@@ -87,3 +87,24 @@ Theorem C01_partial_merge_step_left : forall fuel d par k s es ok idx kq q sb md
   Permutation (EngineMergeFacts.view_leaves fuel d par') (EngineMergeFacts.view_leaves fuel d par).
 Proof. exact EngineMergeFacts.try_merge_left_view. Qed.
 Print Assumptions C01_partial_merge_step_left.
+
+(* ---- write half, tree level: put / delete on a whole (overlay) tree are the reference's insert / remove on its
+   sorted entry list, keep it well-formed, and touch nothing of the transaction state but a counter ---- *)
+Theorem C01_partial_put_refines : forall d b l k v s b' s',
+  EngineModifyFacts.bucket_wf d b -> EngineModifyFacts.bucket_view d b l ->
+  Engine.b_put d b k v s = Engine.Ok (b', s') ->
+  exists l', EngineModifyFacts.bucket_wf d b' /\ EngineModifyFacts.bucket_view d b' l' /\
+    EngineFacts.assoc l' = Spec.ainsert k (Engine.LKv k v) (EngineFacts.assoc l) /\
+    Engine.b_next b' = (match Spec.alookup k (EngineFacts.assoc l) with None => Engine.b_next b + 1 | Some _ => Engine.b_next b end)%N /\
+    EngineModifyFacts.same_but_seqc s s'.
+Proof. exact EngineModifyFacts.b_put_refines. Qed.
+Print Assumptions C01_partial_put_refines.
+
+Theorem C01_partial_delete_refines : forall d b l k s b' s',
+  EngineModifyFacts.bucket_wf d b -> EngineModifyFacts.bucket_view d b l ->
+  Engine.b_delete d b k s = Engine.Ok (b', s') ->
+  exists l', EngineModifyFacts.bucket_wf d b' /\ EngineModifyFacts.bucket_view d b' l' /\
+    EngineFacts.assoc l' = Spec.aremove k (EngineFacts.assoc l) /\ Engine.b_next b' = Engine.b_next b /\
+    EngineModifyFacts.same_but_seqc s s'.
+Proof. exact EngineModifyFacts.b_delete_refines. Qed.
+Print Assumptions C01_partial_delete_refines.
